@@ -261,7 +261,7 @@ PROPS = {
                 level_text='C18_no_leak: for every fleet size, readiness outcome and failing call, attached ++ submitted-for-termination is a permutation of the acquired ids (never both, never neither), every TerminateInstances call carries '
                            '<= terminateBatchSize ids, and success is reported only when nothing was terminated; C18_no_lock: a failed increase leaves the scale lock untouched. Tie: fleetops stream (real provider, 1 s ticker, fleets up to 2500, failure sequences up to the third strike) + monitor; controller level: fleet-mode histories with the monitor "a cool-down starts only in a scan in which the cloud accepted an increase".',
                 level_note=LEVEL_NOTE),
-    'C19': dict(level='proof', module='EscProofs.P.C19',
+    'C19': dict(level='proof', module='EscProofs.P.C19Fresh',
                 # churn: nodes come due, instances arrive, the cloud group's bounds move; with -slow the provider is rebuilt in between (5 s of real sleep each)
                 streams=dict(quick=[('scenario', ['-dir', '@ROOT/corpus/C19']), ('awsops', ['-n', 3000]), ('hist', ['-n', 300, '-scans', 10]), ('hist', ['-n', 150, '-scans', 10, '-focus', 'churn']),
                                     ('hist', ['-n', 16, '-scans', 7, '-focus', 'churn', '-slow'])],
@@ -270,10 +270,10 @@ PROPS = {
                              search=[('awsops', ['-n', 20000]), ('hist', ['-n', 1500, '-scans', 12]), ('hist', ['-n', 1000, '-scans', 12, '-focus', 'churn']), ('hist', ['-n', 32, '-scans', 8, '-focus', 'churn', '-slow'])]),
                 aspects=['journal', 'outcome', 'cached-desired', 'hist:removals', 'hist:outcome'], monitors=['C19'],
                 theorems=['Esc.P.C19_delete', 'Esc.P.C19_count', 'Esc.P.C19_refuse', 'Esc.P.C19_k8s_after_cloud', 'Esc.P.C19_scan_batches',
-                          'Esc.P.C19_not_member_scan', 'Esc.P.C19_not_member_fatal'],
+                          'Esc.P.C19_not_member_scan', 'Esc.P.C19_not_member_fatal', 'Esc.P.C19_membership_fresh'],
                 technique='Lean 4 theorem over the model of aws.NodeGroup.DeleteNodes and TryDeleteNodes (induction over the node list, every failing index) lifted to the scan journal shape + differential correspondence + monitors',
                 level_text='C19_delete: DeleteNodes refuses without any call when the minimum would be breached, else terminates (with decrement) exactly the instances of a prefix of the given nodes, stopping at the first non-member (not-in-group) '
-                           'or failed call; C19_count <= desired-min; C19_k8s_after_cloud / C19_scan_batches: Node deletions only after the whole batch was accepted, for both batches of a scan; C19_not_member_*: the error ends the scan and makes RunOnce fatal. '
+                           'or failed call; C19_count <= desired-min; C19_k8s_after_cloud / C19_scan_batches: Node deletions only after the whole batch was accepted, for both batches of a scan; C19_not_member_*: the error ends the scan and makes RunOnce fatal; C19_membership_fresh: "member" and "minimum" are those of an answer the cloud gave in this same scan (distinct cloud groups). '
                            'Tie: awsops (provider level) and hist (controller level) + monitors.',
                 level_note=LEVEL_NOTE),
     'C12': dict(level='proof', module='EscProofs.P.C12', streams=dict(quick=[('scenario', ['-dir', '@ROOT/corpus/C12']), ('hist', ['-n', 400, '-scans', 10, '-focus', 'multi']), ('hist', ['-n', 16, '-scans', 6, '-focus', 'fleet'])],
